@@ -298,6 +298,13 @@ class World:
         s.fail_exc = BrokenPipeError if op.get("exc", "epipe") == "epipe" else ConnectionResetError
         m.faulted = True
 
+    def op_slow(self, op):
+        """The client becomes a slow reader: after `after` more bytes its receive window is full for a while.  The manager
+        writes with blocking sockets, so this changes nothing that a client can observe - every frame still arrives whole."""
+        m = self._mod(op)
+        m.conn.m.slow_after = op["after"]
+        self.stats["slow-reader-ops"] += 1
+
     # ------------------------------------------------------------------------------------------
     def ready_candidates(self) -> list:
         out = []
@@ -782,6 +789,17 @@ class World:
             import hashlib
 
             self.received_log[m.idx].append(("M", t, hashlib.sha1(fr.payload).hexdigest()[:12]))
+        elif "order" in self.oracles and t == P.MT_FAILED_MESSAGE and fr.src_mod_id == 0 and len(fr.payload) >= 16 + 48:
+            # a failure notice about a CLIENT's publish is unique as well: it names the recipient and embeds the original
+            # header, whose send_time the harness sets to the publish's sequence number (notices about manager-originated
+            # messages can repeat with identical content and stay out; identical notices about two instances of one module
+            # id are dropped by the "occurs once" rule of final_checks)
+            import hashlib
+            import struct
+
+            emb_src = struct.unpack_from("<h", fr.payload, 16 + 26)[0]  # src_mod_id of the embedded header
+            if emb_src != 0:
+                self.received_log[m.idx].append(("M", t, hashlib.sha1(fr.payload).hexdigest()[:12]))
         if fr.src_mod_id == 0 and t in (P.MT_CLIENT_CLOSED, P.MT_CLIENT_INFO) and len(fr.payload) >= P.CLIENT_INFO.size:
             # a departed client leaves no trace: once a connection has been reported closed, the manager never describes it
             # again (the uid is unique per accepted connection)
